@@ -720,3 +720,30 @@ Definition c03_reply_check (c : cfg) (hist : list (Z * omsg)) (snd : Z) (m : min
            end
   | _, _ => []
   end.
+
+(* the trace predicate for C03: the reply to every ResendRequest that is processed directly by a logged-on, non-recovering
+   session with nothing queued or buffered, that passes the header checks and that the validator and the application
+   accept, is judged by c03_reply_check against the store as it was before the request.  The store contents are not part
+   of an observation: they are taken from the model run alongside (the correspondence compares the counters and every
+   message written, so the implementation's store is the model's as long as the traces agree). *)
+Definition c03_recovering (st : sstate) : bool := match unwrap_pending st with SResend _ _ _ => true | _ => false end.
+Definition c03_ok_ctx (s : sess) (m : minput) : bool :=
+  is_logged_on (s_st s) && negb (c03_recovering (s_st s))
+  && Nat.eqb (length (s_to_send s)) 0 && Nat.eqb (length (s_in_buf s)) 0
+  && match check_begin_string s m, check_comp_id s m with None, None => true | _, _ => false end
+  && match check_sending_time s m with None => true | _ => false end
+  && match mi_valid m, mi_app m with VAccept, VAccept => true | _, _ => false end.
+Fixpoint c03_scan (i : nat) (s : sess) (tr : list (event * obs)) : list failure :=
+  match tr with
+  | [] => []
+  | (e, o) :: r =>
+      (match e with
+       | EIncoming m =>
+           if beq_bytes (mi_type m) T_RESENDREQ && c03_ok_ctx s m
+           then map (fun c => (i, c))
+                    (c03_reply_check (s_cfg s) (s_msgs s) (s_snd s) m (filter (fun w => negb (is_type T_RESENDREQ w)) (ob_wire o)))
+           else []
+       | _ => []
+       end) ++ c03_scan (S i) (step s e) r
+  end.
+Definition c03_check (c : cfg) (tr : list (event * obs)) : list failure := c03_scan O (init_sess c) tr.
